@@ -84,3 +84,41 @@ func VerifC07Boundary() {
 	rt.Assert(len(newIds) == 1 && len(removedIds) == 1 && len(changedIds) == 0, "ids-that-differ-are-reported-whatever-their-lengths")
 	rt.Reach("diffed")
 }
+
+// VerifC07Reshape: a local index that went through "two ids, one removed, the other's head updated, a third
+// id added" - the history in which sub-ranges are divided, merged and divided again - diffs exactly against
+// every remote holding any subset of the three ids with arbitrary heads.
+func VerifC07Reshape() {
+	df := rt.Param("d", 2)
+	th := rt.Param("t", 1)
+	depth := rt.Param("depth", 3)
+	ids := vC07Setup(3, depth*vC07Log2(df))
+	d1 := newDiff(df, th).(*diff)
+	d2 := newDiff(df, th).(*diff)
+	hx1, hx2, hw := rt.String(1), rt.String(1), rt.String(1)
+	d1.Set(Element{Id: ids[0], Head: hx1}, Element{Id: ids[1], Head: "y"})
+	rt.Assert(d1.RemoveId(ids[1]) == nil, "remove-known-id")
+	d1.Set(Element{Id: ids[0], Head: hx2})
+	d1.Set(Element{Id: ids[2], Head: hw})
+	in1 := []bool{true, false, true}
+	h1 := []string{hx2, "", hw}
+	in2 := make([]bool, 3)
+	h2 := make([]string, 3)
+	var e2 []Element
+	for i := 0; i < 3; i++ {
+		in2[i] = rt.Choose(2) == 1
+		if in2[i] {
+			h2[i] = rt.String(1)
+			e2 = append(e2, Element{Id: ids[i], Head: h2[i]})
+		}
+	}
+	d2.Set(e2...)
+	newIds, changedIds, removedIds, err := d1.Diff(context.Background(), d2)
+	rt.Assert(err == nil, "diff-no-error")
+	for i := 0; i < 3; i++ {
+		rt.Assert(vC07Count(newIds, ids[i]) == vC07B2I(!in1[i] && in2[i]), "diff-new-exact")
+		rt.Assert(vC07Count(removedIds, ids[i]) == vC07B2I(in1[i] && !in2[i]), "diff-removed-exact")
+		rt.Assert(vC07Count(changedIds, ids[i]) == vC07B2I(in1[i] && in2[i] && h1[i] != h2[i]), "diff-changed-exact")
+	}
+	rt.Reach("diffed")
+}
